@@ -239,6 +239,28 @@ func isPurePath(x ast.Expr) bool {
 		return t.Op == token.AND && isPurePath(t.X)
 	case *ast.IndexExpr:
 		return isPurePath(t.X) && isPurePath(t.Index)
+	case *ast.BasicLit:
+		return true
+	case *ast.CallExpr:
+		// calls of side-effect-free library functions over pure paths
+		name := ""
+		switch f := t.Fun.(type) {
+		case *ast.Ident:
+			name = f.Name
+		case *ast.SelectorExpr:
+			if id, ok := f.X.(*ast.Ident); ok {
+				name = id.Name + "." + f.Sel.Name
+			}
+		}
+		switch name {
+		case "len", "min", "max", "strings.ToLower", "strings.ToUpper", "strings.TrimSpace", "string":
+			for _, a := range t.Args {
+				if !isPurePath(a) {
+					return false
+				}
+			}
+			return true
+		}
 	}
 	return false
 }
@@ -816,17 +838,59 @@ func (v vset) subset(o vset) bool {
 	return true
 }
 
-func (e *FactEngine) newUniverse(req *Formula) (*universe, error) {
+func (e *FactEngine) newUniverse(req *Formula, body *ast.BlockStmt) (*universe, error) {
 	m := map[string]bool{}
 	req.atoms(m)
+	if len(m) > 16 {
+		return nil, fmt.Errorf("requirement has %d atoms (max 16)", len(m))
+	}
+	// one-step closure: atoms that occur in a branch condition together with a
+	// requirement atom are tracked too (so `if a && b {return}; if a {target}` entails !b)
+	if body != nil {
+		var conds []*Formula
+		sc := e.fnScope()
+		ast.Inspect(body, func(n ast.Node) bool {
+			switch t := n.(type) {
+			case *ast.IfStmt:
+				conds = append(conds, e.boolForm(t.Cond, sc))
+			case *ast.ForStmt:
+				if t.Cond != nil {
+					conds = append(conds, e.boolForm(t.Cond, sc))
+				}
+			case *ast.SwitchStmt:
+				if t.Tag == nil {
+					for _, cl := range t.Body.List {
+						for _, x := range cl.(*ast.CaseClause).List {
+							conds = append(conds, e.boolForm(x, sc))
+						}
+					}
+				}
+			}
+			return true
+		})
+		for round := 0; round < 2; round++ {
+			for _, cf := range conds {
+				am := map[string]bool{}
+				cf.atoms(am)
+				share := false
+				for a := range am {
+					if m[a] {
+						share = true
+					}
+				}
+				if share && len(m)+len(am) <= 13 {
+					for a := range am {
+						m[a] = true
+					}
+				}
+			}
+		}
+	}
 	var as []string
 	for a := range m {
 		as = append(as, a)
 	}
 	sort.Strings(as)
-	if len(as) > 16 {
-		return nil, fmt.Errorf("requirement has %d atoms (max 16)", len(as))
-	}
 	u := &universe{atoms: as, idx: map[string]int{}}
 	for i, a := range as {
 		u.idx[a] = i
@@ -1076,9 +1140,18 @@ func (w *walker) effects(n ast.Node, s vset) vset {
 					s = w.kill(s, w.e.canon(ue.X, w.sc, nil))
 				}
 			}
-			if sel, ok := ast.Unparen(c.Fun).(*ast.SelectorExpr); ok {
-				if w.sc.info.Selections[sel] != nil && !w.isPureMethod(c, sel) {
-					s = w.killExt(s, strings.TrimPrefix(w.e.canon(sel.X, w.sc, nil), "&"))
+			if sel, ok := ast.Unparen(c.Fun).(*ast.SelectorExpr); ok && w.sc.info.Selections[sel] != nil {
+				base := strings.TrimPrefix(w.e.canon(sel.X, w.sc, nil), "&")
+				if fi := w.e.p.FuncOf(Callee(w.sc.info, c)); fi != nil {
+					for _, f := range w.e.p.writeSet(fi, 0) {
+						if f == "*" {
+							s = w.killExt(s, base)
+						} else {
+							s = w.kill(s, base+"."+f)
+						}
+					}
+				} else if !looksPure(sel.Sel.Name) {
+					s = w.killExt(s, base)
 				}
 			}
 		}
@@ -1093,6 +1166,107 @@ func (w *walker) isPureMethod(c *ast.CallExpr, sel *ast.SelectorExpr) bool {
 		return w.e.p.pureMethod(fi, 0)
 	}
 	return looksPure(sel.Sel.Name)
+}
+
+// writeSet lists the first-level receiver fields a method may write
+// (transitively, bound 3); "*" = unknown / whole receiver.
+func (p *Prog) writeSet(fi *FuncInfo, depth int) []string {
+	if p.wsCache == nil {
+		p.wsCache = map[*FuncInfo][]string{}
+	}
+	if ws, ok := p.wsCache[fi]; ok {
+		return ws
+	}
+	if fi.Decl.Recv == nil || len(fi.Decl.Recv.List) != 1 || len(fi.Decl.Recv.List[0].Names) != 1 {
+		return nil
+	}
+	if depth > 3 {
+		return []string{"*"}
+	}
+	p.wsCache[fi] = []string{"*"} // recursion guard
+	info := fi.Info()
+	recv := info.Defs[fi.Decl.Recv.List[0].Names[0]]
+	set := map[string]bool{}
+	// firstField returns the first-level field of a receiver-rooted expression ("" = the receiver itself, "-" = not rooted)
+	var firstField func(x ast.Expr) string
+	firstField = func(x ast.Expr) string {
+		switch t := ast.Unparen(x).(type) {
+		case *ast.Ident:
+			if info.ObjectOf(t) == recv {
+				return ""
+			}
+			return "-"
+		case *ast.SelectorExpr:
+			b := firstField(t.X)
+			if b == "" {
+				return t.Sel.Name
+			}
+			return b
+		case *ast.IndexExpr:
+			return firstField(t.X)
+		case *ast.StarExpr:
+			return firstField(t.X)
+		case *ast.UnaryExpr:
+			return firstField(t.X)
+		}
+		return "-"
+	}
+	add := func(f string) {
+		if f == "" {
+			set["*"] = true
+		} else if f != "-" {
+			set[f] = true
+		}
+	}
+	ast.Inspect(fi.Decl.Body, func(n ast.Node) bool {
+		switch s := n.(type) {
+		case *ast.AssignStmt:
+			for _, l := range s.Lhs {
+				if _, isIdent := ast.Unparen(l).(*ast.Ident); !isIdent {
+					add(firstField(l))
+				}
+			}
+		case *ast.IncDecStmt:
+			if _, isIdent := ast.Unparen(s.X).(*ast.Ident); !isIdent {
+				add(firstField(s.X))
+			}
+		case *ast.CallExpr:
+			if id, ok := s.Fun.(*ast.Ident); ok && id.Name == "delete" && len(s.Args) > 0 {
+				add(firstField(s.Args[0]))
+			}
+			for _, a := range s.Args {
+				if ue, ok := ast.Unparen(a).(*ast.UnaryExpr); ok && ue.Op == token.AND {
+					add(firstField(ue.X))
+				}
+			}
+			if sel, ok := ast.Unparen(s.Fun).(*ast.SelectorExpr); ok && info.Selections[sel] != nil {
+				ff := firstField(sel.X)
+				if ff == "-" {
+					return true
+				}
+				if cf := p.FuncOf(Callee(info, s)); cf != nil {
+					ws := p.writeSet(cf, depth+1)
+					if ff == "" { // method on the receiver itself
+						for _, f := range ws {
+							set[f] = true
+						}
+					} else if len(ws) > 0 {
+						set[ff] = true
+					}
+				} else if !looksPure(sel.Sel.Name) {
+					add(ff)
+				}
+			}
+		}
+		return true
+	})
+	var out []string
+	for f := range set {
+		out = append(out, f)
+	}
+	sort.Strings(out)
+	p.wsCache[fi] = out
+	return out
 }
 
 // pureMethod: no store through the receiver, and receiver-rooted calls are pure.
@@ -1544,11 +1718,11 @@ func (e *FactEngine) fnScope() *scope { return &scope{info: e.fn.Info(), local: 
 // FactsAt computes whether req holds at target; returns ok, a counter-example
 // description (when not ok) and an error for undecidable shapes.
 func (e *FactEngine) FactsAt(target ast.Node, req *Formula) (bool, string, error) {
-	u, err := e.newUniverse(req)
+	body := innermostBody(e.fn, target)
+	u, err := e.newUniverse(req, body)
 	if err != nil {
 		return false, "", err
 	}
-	body := innermostBody(e.fn, target)
 	w := &walker{e: e, u: u, sc: e.fnScope(), target: target}
 	w.stmts(body.List, u.valid.clone())
 	if e.undecided != "" {
